@@ -503,7 +503,7 @@ def li_programs():
 
 def value_programs():
     """label arithmetic in instructions and data (C08)"""
-    for gap_ in (0, 4, 100, 2044, 2048, 5000):
+    for gap_ in [0, 4, 100, 2044, 2048, 5000] + list(range(4060, 4104, 4)) + [8188, 8192]:
         for back in (False, True):
             p = Prog('val:%d:%s' % (gap_, 'back' if back else 'fwd'))
             if back:
@@ -515,6 +515,10 @@ def value_programs():
             p.insn('addi', 6, 6, ('lo', ('position', 'T', 0x20000000)))
             p.insn('auipc', 7, ('hi', ('offset', 'T')))
             p.insn('lw', 8, 7, ('lo', ('offset', 'T')))       # evaluated at this item's own offset
+            p.insn('auipc', 8, ('hi', ('offset', 'T')))
+            p.insn('addi', 8, 8, ('lo', ('offset', 'T')))     # rd = rs1 in x8..x15: a c.addi / c.mv candidate when the value is small
+            p.insn('auipc', 9, ('hi', ('offset', 'T')))
+            p.insn('jalr', 0, 9, ('lo', ('offset', 'T'))) if gap_ % 2 == 0 else None
             if gap_ < 2000:
                 p.insn('addi', 9, 0, ('offset', 'T'))
                 p.insn('addi', 9, 0, ('label', 'T'))
@@ -537,7 +541,7 @@ def hilo_programs():
     """%hi / %lo of literals, constants and %position expressions over every carry class, each value in its unsigned and
     (from 2**31 up) its negative spelling, consumed by lui/auipc + addi/lw/sw/jalr (C07)"""
     uppers = [0, 1, 2, 0x7fffe, 0x7ffff, 0x80000, 0x80001, 0xffffe, 0xfffff]
-    lows = [0, 1, 0x7fe, 0x7ff, 0x800, 0x801, 0xffe, 0xfff]
+    lows = [0, 1, 4, 0x20, 0x24, 0x40, 0x44, 0x7c, 0x80, 0x7fe, 0x7ff, 0x800, 0x801, 0xffe, 0xfff]    # incl. the c.lw / c.sw / c.addi offset bits
     vals = []
     for u in uppers:
         for lo in lows:
@@ -634,6 +638,14 @@ def compress_edge_programs():
         for c in cases[i:i + 24]:
             p.insn(c[0], *c[1:])
         yield p
+    # a negative 12-bit immediate written in its unsigned spelling (0xfff for -1): refused by the assembler as it stands; if a
+    # version accepts it, the instruction it encodes is what eligibility is judged on (one program each: a refusal is harmless)
+    for m, rd, rs1, imm in [('addi', 1, 1, -1), ('addi', 8, 8, -32), ('addi', 5, 0, -1), ('addi', 2, 2, -32), ('addi', 2, 2, -512),
+                            ('andi', 8, 8, -1), ('andi', 9, 9, -16), ('addi', 9, 9, -3), ('addi', 10, 0, -32)]:
+        p = Prog('cedge:unsigned-spelling:%s:%d:%d:%d' % (m, rd, rs1, imm))
+        p.add('%s x%d, x%d, 0x%x' % (m, rd, rs1, imm + 4096), kind='insn', m=m, ops=(rd, rs1, imm), literal=True)
+        p.insn('addi', 5, 6, 100)
+        yield p
     p = Prog('cedge:ebreak')
     p.add('ebreak', kind='insn', m='ebreak', ops=(), literal=True)
     p.add('ecall', kind='insn', m='ecall', ops=(), literal=True)
@@ -694,6 +706,18 @@ def data_programs():
                 p = Prog('data-refuse:%s:%d:%d' % (d, v, len(lead)))
                 p.add('%s %s' % (d, ' '.join(str(x) for x in tuple(lead) + (v,))), kind='data', d=d, values=list(lead) + [v], must_refuse=True)
                 yield p
+    for n, (text, raw) in enumerate([('ab\\n', b'ab\n'), ('\\x41\\x42c', b'ABc'), ('tab\\there', b'tab\there'), ('q\\\\', b'q\\'), ('\\u00e9t\\u00e9', 'été'.encode()),
+                                     ('plain', b'plain')]):
+        for al in (4, 3, 8):
+            p = Prog('data:string-escape:%d:al%d' % (n, al))
+            p.string(text, expect=raw)
+            p.align(al)
+            p.label('AFTER')
+            p.data('bytes', 0xaa)
+            p.string(text, expect=raw)
+            p.label('E')
+            p.data('dw', ('label', 'AFTER'))
+            yield p
     p = Prog('data:pack')
     for fmt, v in [('<B', 255), ('<b', -128), ('<H', 65535), ('>H', 0x1234), ('<h', -2), ('<I', 0xdeadbeef), ('>I', 0xdeadbeef),
                    ('<i', -5), ('<Q', 2 ** 64 - 1), ('<q', -2 ** 63), ('>q', 7), ('<L', 9), ('<l', -9)]:
